@@ -82,6 +82,8 @@ def filter_structure(sl):
     observe("exactly the selected leaves remain, in their original order, as the same objects",
             len(survivors) == len(expect) and all(s is leaves[i] for s, i in zip(survivors, expect)))
     observe("no empty parallel element remains", all(not isinstance(e, track.Parallel) or len(e.tasks) > 0 for e in ch.schedule))
+    observe("a filtered parallel element asks for the clients of its remaining tasks only",
+            all(not isinstance(e, track.Parallel) or e.clients == sum(t.clients for t in e.tasks) for e in ch.schedule))
     observe("properties of surviving tasks unchanged", all(dict(vars(leaves[i])) == snapshot[i] for i in expect))
     # grouping preserved: survivors of one element stay in one element, elements keep their kind
     pos = {id(leaves[i]): k for k, (_, idxs) in enumerate(shape) for i in idxs}
